@@ -3,7 +3,7 @@
     randomness with non-zero randomisers), customer acceptance of honest replies (below, from blind-sign/unblind
     correctness), revocation acceptance (C05) and exact balance arithmetic (C17). *)
 From ZK Require Import Model.Field Model.Zq Model.QBls Model.Pedersen Model.PS Model.Schnorr Model.Range Model.Abacus
-  Model.Amount Model.Customer Model.Merchant Proofs.PSProofs Proofs.PedersenProofs Proofs.EstablishProofs Proofs.PayProofs
+  Model.Amount Model.Customer Model.Merchant Model.Protocol Model.Keygen Proofs.ProtocolProofs Proofs.PSProofs Proofs.PedersenProofs Proofs.EstablishProofs Proofs.PayProofs
   Proofs.CustomerProofs Proofs.MerchantProofs Proofs.AmountProofs.
 Local Open Scope fld_scope.
 
@@ -47,9 +47,108 @@ Theorem C04_payment_arithmetic : forall cb mb a, (0 <= cb <= i64_max)%Z -> (0 <=
   cb' = (cb - a)%Z /\ mb' = (mb + a)%Z /\ (0 <= cb' <= i64_max)%Z /\ (0 <= mb' <= i64_max)%Z /\ (cb' + mb' = cb + mb)%Z.
 Proof. intros cb mb a Hc Hm Ha cb' mb' H. exact (apply_payment_ok_inv cb mb a cb' mb' Hc Hm Ha H). Qed.
 
+(** ** the two parties composed (Model/Protocol.v): prover, Fiat-Shamir hash (any function), merchant verification, blind
+    signing, unblinding, revocation - for every randomness with non-zero randomisers *)
+
+Theorem C04_honest_pay_proof_accepted_fiat_shamir : forall (K : Fld) (close_tag : K) (chal : list (atom K) -> K)
+    (pk : pkey K) rp hr gr (tok : sigt K) cid nonce lock ocb omb nn lock' cbz mbz eps d ctx,
+  verify pk [cid; nonce; lock; ocb; omb] tok = true ->
+  validate rp = true -> length (rp_sigs rp) = 128%nat ->
+  (0 <= cbz < 2 ^ 63)%Z -> (0 <= mbz < 2 ^ 63)%Z ->
+  of_Z cbz = ocb - eps -> of_Z mbz = omb + eps ->
+  length (d_dsc d) = 9%nat -> length (d_dsm d) = 9%nat ->
+  Forall (fun rd => rd_r rd <> f0) (d_dsc d) -> Forall (fun rd => rd_r rd <> f0) (d_dsm d) ->
+  d_rt d <> f0 ->
+  let old := [cid; nonce; lock; ocb; omb] in
+  let new := [cid; nn; lock'; of_Z cbz; of_Z mbz] in
+  exists p, pay_prove close_tag chal pk rp hr gr tok old cbz mbz new d ctx = Some p /\
+    pay_verify close_tag chal pk rp hr gr nonce eps p ctx
+    = Some (blind pk new (d_bfs d), blind pk [cid; close_tag; lock'; of_Z cbz; of_Z mbz] (d_bfc d),
+            commit hr [gr] [lock] (d_bfr d)).
+Proof. exact pay_fiat_shamir_complete. Qed.
+
+Theorem C04_full_establish_completes : forall (K : Fld) (close_tag : K) (chal : list (atom K) -> K)
+    (m : mconfig K) cid cb mb e ctx u1 u2,
+  mconfig_ok K m -> length (ed_ks e) = 5%nat -> u1 <> f0 -> u2 <> f0 ->
+  (0 <= cb <= i64_max)%Z -> (0 <= mb <= i64_max)%Z ->
+  exists st, full_establish close_tag chal m cid cb mb e ctx u1 u2 = PDone st /\
+             ready_ok K close_tag (m_pk m) cid (cb, mb) st.
+Proof. exact full_establish_completes. Qed.
+
+Theorem C04_full_payment_spec : forall (K : Fld) (close_tag : K) (chal : list (atom K) -> K)
+    (m : mconfig K) cid l st a sd ctx u1 u2,
+  mconfig_ok K m -> ready_ok K close_tag (m_pk m) cid l st -> is_i64 a -> draws_ok K (sd_pd sd) -> u1 <> f0 -> u2 <> f0 ->
+  (in_range l a -> exists st', full_payment close_tag chal m st a sd ctx u1 u2 = PDone st' /\
+                               ready_ok K close_tag (m_pk m) cid ((fst l - a)%Z, (snd l + a)%Z) st') /\
+  (~ in_range l a -> exists e, full_payment close_tag chal m st a sd ctx u1 u2 = PAmountRefused st e).
+Proof. exact full_payment_spec. Qed.
+
+(** by induction over the list of payment attempts: never stuck, and the customer ends Ready (valid token, valid closing
+    signature) on exactly the ideal ledger's balances *)
+Theorem C04_full_run_tracks_ledger : forall (K : Fld) (close_tag : K) (chal : list (atom K) -> K) (m : mconfig K) cid,
+  mconfig_ok K m -> forall ats l st,
+  Forall (attempt_ok K) ats -> ready_ok K close_tag (m_pk m) cid l st ->
+  exists st', full_run close_tag chal m st ats = PDone st' /\
+              ready_ok K close_tag (m_pk m) cid (ledger_run l (map (@at_amount K) ats)) st'.
+Proof. exact full_run_tracks_ledger. Qed.
+
+Theorem C04_channel_lifecycle : forall (K : Fld) (close_tag : K) (chal : list (atom K) -> K)
+    (m : mconfig K) cid cb mb e ctx u1 u2 ats rho,
+  mconfig_ok K m -> length (ed_ks e) = 5%nat -> u1 <> f0 -> u2 <> f0 ->
+  (0 <= cb <= i64_max)%Z -> (0 <= mb <= i64_max)%Z -> Forall (attempt_ok K) ats -> rho <> f0 ->
+  exists st0 st, full_establish close_tag chal m cid cb mb e ctx u1 u2 = PDone st0 /\
+    full_run close_tag chal m st0 ats = PDone st /\
+    let l := ledger_run (cb, mb) (map (@at_amount K) ats) in
+    ready_ok K close_tag (m_pk m) cid l st /\
+    exists sig s, close_of st rho = Some (sig, s) /\ check_close close_tag (m_pk m) sig s = true /\
+                  s_cid s = cid /\ (s_cb s, s_mb s) = l /\ (fst l + snd l = cb + mb)%Z.
+Proof. exact channel_lifecycle. Qed.
+
+Theorem C04_ledger_conserves_and_stays_in_range : forall amounts l,
+  (0 <= fst l <= i64_max)%Z -> (0 <= snd l <= i64_max)%Z ->
+  let l' := ledger_run l amounts in
+  (fst l' + snd l' = fst l + snd l)%Z /\ (0 <= fst l' <= i64_max)%Z /\ (0 <= snd l' <= i64_max)%Z.
+Proof. exact ledger_run_invariant. Qed.
+
+(** non-vacuity: a concrete merchant configuration has valid range parameters, and a concrete run is evaluated through
+    the composed model: establish with balances (10, 3); pay 4 -> (6, 7); attempt 7: 6 - 7 < 0, refused; attempt -9:
+    7 - 9 < 0, refused; the customer ends Ready on (6, 7), the ideal ledger's value. *)
+Definition ex_chal (l : list (atom Fq)) : Fq := fq (Z.of_nat (length l) + 7).
+Definition ex_rd (i : Z) : rdraw Fq := mkRD (fq (1000 + i)) (fq (2000 + i)) (fq (3000 + i)) (fq (4000 + i)).
+Definition ex_pd (b : Z) : pdraws Fq :=
+  mkPD (map ex_rd [b+1;b+2;b+3;b+4;b+5;b+6;b+7;b+8;b+9]%Z) (map ex_rd [b+11;b+12;b+13;b+14;b+15;b+16;b+17;b+18;b+19]%Z)
+       (fq (b+21)) (fq (b+22)) (fq (b+23)) (fq (b+24)) (fq (b+25)) (fq (b+26)) (fq (b+27)) (fq (b+28))
+       (fq (b+29)) (fq (b+30)) (fq (b+31)) (fq (b+32)) (fq (b+33)) (fq (b+34)) (fq (b+35)).
+Definition ex_m : mconfig Fq :=
+  let kp := keygen (fq 11) (fq 17) [fq 19; fq 23; fq 29; fq 31; fq 37] (fq 13) in
+  let rk := keygen (fq 3) (fq 5) [fq 7] (fq 9) in
+  mkM (fst kp) (snd kp) (fq 41) (fq 43)
+      (range_params_new (fst rk) (snd rk) (map (fun i => fq (Z.of_nat i + 100)) (seq 0 128))).
+Definition ex_at (a b : Z) : attempt Fq := mkAt a (mkSD (fq (b+50)) (fq (b+51)) (ex_pd b)) [b] (fq (b+60)) (fq (b+61)).
+
+Example C04_nonvacuous :
+  validate (m_rp ex_m) = true /\ length (rp_sigs (m_rp ex_m)) = 128%nat /\
+  match full_establish (fq 77) ex_chal ex_m (fq 5) 10 3
+          (mkED (fq 6) (fq 7) (fq 41) (fq 43) [fq 51; fq 52; fq 53; fq 54; fq 55] (fq 61) (fq 63) (fq 71)) [1%Z] (fq 81) (fq 82) with
+  | PDone st0 =>
+      match full_run (fq 77) ex_chal ex_m st0 [ex_at 4 100; ex_at 7 200; ex_at (-9) 300] with
+      | PDone (Ready s _ _) => (s_cb s, s_mb s) = (6, 7)%Z /\ ledger_run (10, 3)%Z [4; 7; -9]%Z = (6, 7)%Z
+      | _ => False
+      end
+  | _ => False
+  end.
+Proof. vm_compute. auto. Qed.
+
 Print Assumptions C04_honest_establish_proof_accepted.
 Print Assumptions C04_honest_closing_reply_accepted.
 Print Assumptions C04_honest_token_reply_accepted.
 Print Assumptions C04_honest_revocation_accepted.
 Print Assumptions C04_honest_payment_tracks_ledger.
 Print Assumptions C04_payment_arithmetic.
+Print Assumptions C04_honest_pay_proof_accepted_fiat_shamir.
+Print Assumptions C04_full_establish_completes.
+Print Assumptions C04_full_payment_spec.
+Print Assumptions C04_full_run_tracks_ledger.
+Print Assumptions C04_channel_lifecycle.
+Print Assumptions C04_ledger_conserves_and_stays_in_range.
+Print Assumptions C04_nonvacuous.
